@@ -92,6 +92,26 @@ func newConverter(t Target) transpiler.Converter {
 // TranspileFile runs the real Transpile on path with a fresh transpiler and
 // converter, under recover() and a watchdog.
 func TranspileFile(path string, t Target, limit time.Duration) TResult {
+	r := transpileOnce(path, t, limit)
+	if !r.Hang {
+		return r
+	}
+	// The watchdog is wall-clock time. A call that normally takes milliseconds can miss it when the machine (or the
+	// virtual machine it runs in) stalls; so a timeout is confirmed by a second call, one at a time, with twice the
+	// limit. A real hang reproduces. At most 8 confirmations per process: a tree on which more calls hang is decided.
+	confirmMu.Lock()
+	defer confirmMu.Unlock()
+	if confirmations >= 8 {
+		return r
+	}
+	confirmations++
+	return transpileOnce(path, t, 2*limit)
+}
+
+var confirmMu sync.Mutex
+var confirmations int
+
+func transpileOnce(path string, t Target, limit time.Duration) TResult {
 	type out struct {
 		s   string
 		err error
